@@ -2296,7 +2296,14 @@ def token_iter(
     lines = re.split(r"(\n+)", text)  # Lines and separators
     parts_re = re.compile(r"('{2,})")
     for line in lines:
-        if not line.strip(" \t"):
+        # Skip the empty strings produced by the split, and lines made of
+        # blanks only -- except inside a multi-line template/link argument
+        # (no beginning-of-line handling there), where such a line is part
+        # of the argument's text.
+        if not line or (
+            not line.strip(" \t")
+            and (ctx.begline_enabled or len(lines) == 1)
+        ):
             continue
         # Detected headers before partitioning on "''"s.  The title of a
         # heading is not itself scanned for headings: "= =a= =" is one
